@@ -100,6 +100,13 @@ func findSelectorExprViolation(
 		return nil
 	}
 
+	// The name of an embedded field (struct{ pkg.T }) declares the field AND names its type: the type is referenced
+	if v, ok := obj.(*types.Var); ok && v.Embedded() {
+		if used := ctx.pass.TypesInfo.Uses[expr.Sel]; used != nil {
+			obj = used
+		}
+	}
+
 	// A type alias (type A = pkg.T) denotes the aliased type: check the type it stands for
 	obj = resolveTypeAlias(obj)
 
@@ -142,6 +149,13 @@ func findIdentViolation(
 	obj := ctx.pass.TypesInfo.ObjectOf(ident)
 	if obj == nil {
 		return nil
+	}
+
+	// The name of an embedded field (struct{ T }, T an alias or dot-imported) declares the field AND names its type
+	if v, ok := obj.(*types.Var); ok && v.Embedded() {
+		if used := ctx.pass.TypesInfo.Uses[ident]; used != nil {
+			obj = used
+		}
 	}
 
 	// A local type alias (type A = pkg.T) denotes the aliased type: check the type it stands for
